@@ -188,6 +188,25 @@ fn remove_case<const P: u16, const ID: u16>() {
     else { assert!(h.get_dev_id(probe) == owner0, "C32.remove: other ports (and keyboard/display ports) keep their owner"); }
     assert!(wf_at(&h, probe), "C32.remove: invariant preserved");
 }
+/// A device owning several ports: every one of them is freed (concrete table: device 3 owns xFE10, xFE11 and xFFFF,
+/// device 4 owns xFE12).
+#[kani::proof] #[kani::unwind(514)]
+fn remove_device_multi_port() {
+    let mut h = DeviceHandler::new();
+    h.devices.reserve(4);
+    h.devices.push(internals::SimDevice::Null);
+    h.devices.push(internals::SimDevice::Null);
+    h.io_ports[0x10] = 3; h.io_ports[0x11] = 3; h.io_ports[0x1FF] = 3; h.io_ports[0x12] = 4;
+    h.remove_device(3);
+    assert!(h.get_dev_id(0xFE10) == Some(0) && h.get_dev_id(0xFE11) == Some(0) && h.get_dev_id(0xFFFF) == Some(0), "C32.remove: all of the device's ports are freed");
+    assert!(h.get_dev_id(0xFE12) == Some(4) && h.get_dev_id(KBSR) == Some(1) && h.get_dev_id(DDR) == Some(2), "C32.remove: other devices' ports keep their owner");
+    // the freed ports can be given to a new device, whose id is a fresh one
+    let ports = [0xFE11u16, 0xFFFF];
+    match h.add_device(NullDevice, &ports) {
+        Ok(id) => assert!(id == 5 && h.get_dev_id(0xFE11) == Some(5) && h.get_dev_id(0xFFFF) == Some(5), "C32.remove: freed ports can be owned again, by a device with a new id"),
+        Err(_) => assert!(false, "C32.remove: freed ports are available again"),
+    }
+}
 #[kani::proof] #[kani::unwind(514)] fn remove_device_3() { remove_case::<0xFE10, 3>() }
 #[kani::proof] #[kani::unwind(514)] fn remove_device_4() { remove_case::<0xFFFF, 4>() }
 #[kani::proof] #[kani::unwind(514)] fn remove_device_kbd() { remove_case::<0xFE00, 1>() }
